@@ -57,6 +57,116 @@ type presentation struct {
 	desc     string
 	expected string
 	expArg   int64
+	// status histories (timed leg): what the model of the runner's status calls expects
+	// of the final request: "wait" (thinking time first), "now" (suspended: at once), "either"
+	expect  string
+	history []string
+	skip    int // adapter calls made during the history
+}
+
+// statusModel is the runner's public status interface as its names and the threshold
+// setter describe it: Idle() marks a player idle (a second Idle(), or a request that times
+// out while idle, counts towards the suspend threshold), Resume() makes the player
+// running, Suspend() suspends, any manual action clears the count.
+type statusModel struct {
+	st       string // running idle suspended
+	n, k     int
+	explicit bool // suspended by an explicit Suspend() call
+}
+
+func (m *statusModel) idle() {
+	if m.st != "idle" {
+		m.st, m.n = "idle", 0
+	} else {
+		m.n++
+	}
+	if m.n == m.k {
+		m.st, m.explicit = "suspended", false
+	}
+}
+
+// presentHistory applies a drawn history of status calls, timed-out requests and manual
+// actions to a fresh runner and then presents the request with a real thinking time.
+func presentHistory(st handState, id string, gi int, r *choose.SplitMix, actTime int) *presentation {
+	p := &presentation{st: st, id: id, gi: gi, actTime: actTime}
+	a := pactor.NewActor()
+	p.ad = &recAdapter{}
+	a.SetAdapter(p.ad)
+	pr := pactor.NewPlayerRunner(id)
+	a.SetRunner(pr)
+	m := &statusModel{st: "running", k: 2}
+	if r.Intn(2) == 0 {
+		m.k = 1 + r.Intn(3)
+		pr.SetSuspendThreshold(m.k)
+	}
+	p.history = append(p.history, fmt.Sprintf("threshold=%d", m.k))
+	stamp := st.Table.State.GameState.UpdatedAt
+	n := 1 + r.Intn(7)
+	// a third of the histories start with a suspension reached by count
+	// (Idle, then threshold-many timed-out requests)
+	script := []int{}
+	if r.Intn(3) == 0 {
+		script = append(script, 0)
+		for i := 0; i < m.k; i++ {
+			script = append(script, 3)
+		}
+		n = len(script) + r.Intn(4)
+	}
+	for i := 0; i < n; i++ {
+		op := []int{0, 0, 0, 1, 2, 3, 3, 3, 3, 5}[r.Intn(10)]
+		if i < len(script) {
+			op = script[i]
+		}
+		switch op {
+		case 0:
+			pr.Idle()
+			m.idle()
+			p.history = append(p.history, "Idle()")
+		case 1:
+			pr.Resume()
+			if m.st != "running" {
+				m.st, m.n = "running", 0
+			}
+			p.history = append(p.history, "Resume()")
+		case 2:
+			pr.Suspend()
+			m.st, m.explicit = "suspended", true
+			p.history = append(p.history, "Suspend()")
+		case 3, 4:
+			// a request that times out at once (action time 0): same hand state, later stamp
+			view := cloneT(st.Table)
+			view.Meta.ActionTime = 0
+			stamp++
+			view.State.GameState.UpdatedAt = stamp
+			p.ad.UpdateTableState(view)
+			if m.st == "idle" {
+				m.idle()
+			}
+			p.history = append(p.history, "request-timed-out")
+		case 5:
+			pr.Ready() // a manual action (the recording adapter accepts anything)
+			m.n = 0
+			p.history = append(p.history, "manual-action")
+		}
+	}
+	p.skip = len(p.ad.Calls())
+	p.status = m.st
+	switch {
+	case m.st == "suspended" && m.explicit:
+		p.expect = "now"
+	case m.st == "suspended":
+		p.expect = "either" // suspended by count: the statement does not fix the threshold semantics
+	default:
+		p.expect = "wait"
+	}
+	view := cloneT(st.Table)
+	view.Meta.ActionTime = actTime
+	stamp++
+	view.State.GameState.UpdatedAt = stamp
+	p.tIn = time.Now()
+	p.ad.UpdateTableState(view)
+	p.desc = fmt.Sprintf("%s: player %s (game index %d) after %v (model: %s) action time=%ds", st.Desc, id, gi, p.history, m.st, actTime)
+	return p
 }
 
 func present(st handState, id string, gi int, status string, actTime int) *presentation {
@@ -83,7 +193,7 @@ func present(st handState, id string, gi int, status string, actTime int) *prese
 // judge the calls recorded so far; final = the thinking time plus margin has passed
 func (p *presentation) judge(final bool) (string, string) {
 	gs := p.st.Table.State.GameState
-	calls := p.ad.Calls()
+	calls := p.ad.Calls()[p.skip:]
 	for _, cl := range calls {
 		switch cl.Kind {
 		case "call", "bet", "raise", "allin":
@@ -118,9 +228,14 @@ func (p *presentation) judge(final bool) (string, string) {
 	kind, arg := conservativeChoice(gs, p.gi)
 	p.expected, p.expArg = kind, arg
 	immediate := p.status == "suspended" || p.actTime == 0
+	mayBeEarly := immediate
+	if p.expect != "" {
+		immediate = p.expect == "now"
+		mayBeEarly = p.expect != "wait"
+	}
 	if len(calls) == 1 {
 		cl := calls[0]
-		if !immediate && cl.At.Sub(p.tIn) < time.Duration(p.actTime)*time.Second {
+		if !mayBeEarly && cl.At.Sub(p.tIn) < time.Duration(p.actTime)*time.Second {
 			return "C19.acted-before-time", fmt.Sprintf("%s: acted %v after the request, thinking time is %d s", p.desc, cl.At.Sub(p.tIn), p.actTime)
 		}
 		if cl.Kind != kind || (kind == "pay" && cl.Arg != arg) {
@@ -220,7 +335,7 @@ func (s seededCh) Int(label string, lo, hi int) int {
 
 func TestC19Timed(t *testing.T) {
 	defer c19tStats.Write()
-	want := run.Scale(256, 6000)
+	want := run.Scale(600, 8000)
 	seed := uint64(run.Seed())*4241 + uint64(run.Shard())*811
 	var mu sync.Mutex
 	var ps []*presentation
@@ -237,7 +352,12 @@ func TestC19Timed(t *testing.T) {
 					}
 					status := []string{"running", "idle"}[r.Intn(2)]
 					at := 1 + r.Intn(2)
-					p := present(st, id, gi, status, at)
+					var p *presentation
+					if pl := st.Table.State.GameState.GetPlayer(gi); r.Intn(2) == 0 && pl != nil && len(pl.AllowedActions) > 0 && !has(pl.AllowedActions, "pass") && st.Table.State.Status == pokertable.TableStateStatus_TableGamePlaying {
+						p = presentHistory(st, id, gi, r, at)
+					} else {
+						p = present(st, id, gi, status, at)
+					}
 					mu.Lock()
 					ps = append(ps, p)
 					mu.Unlock()
@@ -268,6 +388,14 @@ func TestC19Timed(t *testing.T) {
 			return
 		}
 		ls := []string{fmt.Sprintf("timed_%ds", p.actTime), p.status}
+		if p.expect != "" {
+			ls = append(ls, "history_expect_"+p.expect, fmt.Sprintf("history_len_%d", len(p.history)-1))
+			for i := 2; i < len(p.history); i++ {
+				if p.history[i] == "Idle()" && p.history[i-1] == "request-timed-out" {
+					ls = append(ls, "history_idle_call_after_timeouts")
+				}
+			}
+		}
 		if p.expected != "" {
 			ls = append(ls, "timed_choice_"+p.expected)
 		}
